@@ -2,7 +2,9 @@
 (* C09, implementation level.  Each case: hist (ending in a power flow), and for that last step               *)
 (*   live  = res_bus of the long-lived net,  copy = same call on copy.deepcopy(net) taken just before,          *)
 (*   fresh = same call (init results -> auto) on a copy with results/caches/options reset;                      *)
-(* each [conv, vm, va, p, q] with fixed-point sequences over the buses (or the NaN sentinel).                              *)
+(* each [conv, vm, va, p, q] with fixed-point sequences over the buses (or the NaN sentinel), plus the other result      *)
+(* tables flattened: act (active powers of res_gen/res_line/res_trafo/res_ext_grid/res_load, res_gen vm), ang (res_gen    *)
+(* va_degree), rea (reactive powers, loadings).                                                                          *)
 EXTENDS HistoryDef, Fix, Json, IOUtils
 VARIABLE i
 Cases == JsonDeserialize(IOEnv.OBS_FILE)
@@ -16,7 +18,9 @@ AbsTol == 30      \* 3e-5 p.u. / degree / MW: two independent solves with tolera
 RelPpm == 20
 Same(x, y) == /\ CloseSeq(x.vm, y.vm, AbsTol, RelPpm) /\ CloseSeq(x.va, y.va, 10 * AbsTol, RelPpm)
               /\ CloseSeq(x.p, y.p, AbsTol, RelPpm) /\ CloseSeq(x.q, y.q, AbsTol, RelPpm)
-C09_SameAsDeepCopy == (C.live.conv /\ C.copy.conv) => Same(C.live, C.copy)
+SameTabs(x, y, dc) == /\ CloseSeq(x.act, y.act, AbsTol, RelPpm) /\ CloseSeq(x.ang, y.ang, 10 * AbsTol, RelPpm)
+                      /\ (dc \/ CloseSeq(x.rea, y.rea, 10 * AbsTol, RelPpm))
+C09_SameAsDeepCopy == (C.live.conv /\ C.copy.conv) => Same(C.live, C.copy) /\ SameTabs(C.live, C.copy, FALSE)
 C09_ConvergesLikeDeepCopy == C.live.conv = C.copy.conv
 \* a DC power flow computes no reactive power: res_bus.q_mvar keeps whatever an earlier AC run left there (NaN on a
 \* fresh net).  That column is outside what rundcpp reports, so it is not compared against the fresh reference.
@@ -24,6 +28,8 @@ SameDC(x, y) == /\ CloseSeq(x.vm, y.vm, AbsTol, RelPpm) /\ CloseSeq(x.va, y.va, 
                 /\ CloseSeq(x.p, y.p, AbsTol, RelPpm)
 C09_SameAsFresh == (C.live.conv /\ C.fresh.conv) =>
                       IF Last.op = "rundcpp" THEN SameDC(C.live, C.fresh) ELSE Same(C.live, C.fresh)
+\* the element result tables (generators, branches, loads): the same for the long-lived and the fresh net
+C09_ElementTablesSameAsFresh == (C.live.conv /\ C.fresh.conv) => SameTabs(C.live, C.fresh, Last.op = "rundcpp")
 C09_ConvergesLikeFresh == (Last.init # "results" \/ MustConverge(Pre, Last)) => (C.fresh.conv => C.live.conv)
 \* NaN mask = the spec's unsupplied set (buses are numbered 0..3 in the sequences)
 C09_NaNMask == C.live.conv => \A b \in 0..3 : (C.live.vm[b + 1] = NaN) <=> (b \in Unsupplied(Pre.n))
